@@ -6471,7 +6471,7 @@ class PyCdlib:
             raise pycdlibexception.PyCdlibInvalidInput('Can only set the relocated name on a Rock Ridge ISO')
 
         encoded_name = name.encode('utf-8')
-        encoded_rr_name = rr_name.encode('utf-8')
+        encoded_rr_name = self._check_rr_name(rr_name)
         if self._rr_moved_name is not None:
             if self._rr_moved_name == encoded_name and self._rr_moved_rr_name == encoded_rr_name:
                 return
